@@ -1,7 +1,7 @@
 """C04 - No deadlock among API calls and internal threads, including nested submission."""
 import random
 
-from . import c01
+from . import c01, chain
 
 TRACE = "DeadlockObsTrace"
 
@@ -60,4 +60,9 @@ def run(ck):
     # the lock programs of those executions, interleaved exhaustively by TLC (spec/LockCases.tla); candidate cycles
     # are steered towards in the real code and only a deadlock that really happens there is reported
     ck.lock_cycles(pairs, TRACE)
+    # chains of derived futures: FutureChain.tla (NoDeadlock on every interleaving of cancel / completion / outside
+    # cancellation / callback registration); its behaviours replayed in the code; random executions including the
+    # combination that TLC shows to deadlock (D16: FutureChain.d16.cfg), whose lock programs go through LockCases too
+    cpairs = chain.run(ck, quick, rng, d16=True)
+    ck.lock_cycles(cpairs, chain.TRACE)
     ck.assumptions += ["shutdown is called by a single thread", "every scripted callable terminates; horizon 60 s virtual"]
